@@ -7,7 +7,7 @@
 (* the operators they use, so a malformed value is a failed clause and     *)
 (* never a TLC evaluation error.                                           *)
 (***************************************************************************)
-EXTENDS FMMetrics, FMEq, FMFormats, FMExports
+EXTENDS FMMetrics, FMEq, FMFormats, FMExports, FMBig
 
 \* A clause is <<name, truth>> or <<name, truth, why>>: `why` names the deviation
 \* (a known finding modelled in the specification) that explains a failure, or "".
@@ -459,6 +459,12 @@ ExecChainClauses(cur, e) ==
         <<"C16.chain.value", (R.depth_out = "value" /\ R.leaves_out = "value" /\ R.anc_out = "value")
                               => (R.depth = n - 1 /\ R.leaves = 1 /\ R.anc_len = n - 1)>> >>
 
+\* The estimate on a model whose root owns relations over many LEAF children (harness-built from args.groups):
+\* the exact count is a product of sums of binomial coefficients, computed on decimal digit sequences (FMBig)
+ExecWideClauses(cur, e) ==
+  << <<"C13.wide.total", e.ret.out = "value">>,
+     <<"C13.wide.exact", e.ret.out = "value" => e.ret.digits = WideCount(e.args.groups)>> >>
+
 ---------------------------------------------------------------------------
 (* Exports (C10, C11): e.ret.doc is the parsed abstract syntax *)
 ExportClauses(cur, e) ==
@@ -513,6 +519,7 @@ Clauses(cur, e) ==
     [] e.a = "ReadCorpus"     -> ReadCorpusClauses(cur, e)
     [] e.a = "ExecBig"        -> ExecBigClauses(cur, e)
     [] e.a = "ExecChain"      -> ExecChainClauses(cur, e)
+    [] e.a = "ExecWide"       -> ExecWideClauses(cur, e)
     [] e.a = "ReadBack"       -> << <<"C12.utf8.names." \o e.args.fmt,
                                       e.out = "value" => (e.anom = <<>> /\ Names(e.post) = Names(cur.model))>> >>
     [] e.a = "ParseJson"      -> << <<"C05.parsejson.total", InFrag("json", cur.m0) => e.out = "value">> >>
